@@ -1,13 +1,14 @@
 #!/usr/bin/env python3
-"""Freeze the table of audited functions: sa/known_funcs.json (qualified names, nested ones included) and
-sa/known_sigs.json (per function a token fingerprint used to recognise a *renamed* audited function).
+"""Freeze the table of audited functions: sa/known_funcs.json (qualified names, nested ones included), sa/known_sigs.json (per
+function a token fingerprint used to recognise a *renamed* audited function) and sa/known_locals.json (per function the binding-site
+fingerprints of its locals, taken after constant propagation, used to undo consistent renames of locals).
 Run only when the rule anchors are re-audited against a new tree."""
 import ast, json, os, sys
 sys.path.insert(0, os.path.dirname(os.path.dirname(os.path.abspath(__file__))))
-from sa.normalize import fingerprint, local_fingerprints
+from sa.normalize import ProgramNormalizer, fingerprint, local_fingerprints
 
 root = sys.argv[1] if len(sys.argv) > 1 else "/repo"
-known, sigs, locs = set(), {}, {}
+trees, is_init = {}, {}
 for dp, dn, fns in os.walk(os.path.join(root, "nostr_relay")):
     for f in sorted(fns):
         if not f.endswith(".py"):
@@ -17,24 +18,27 @@ for dp, dn, fns in os.walk(os.path.join(root, "nostr_relay")):
         mod = rel[:-3].replace(os.sep, ".")
         if mod.endswith(".__init__"):
             mod = mod[:-9]
-        tree = ast.parse(open(full).read())
-
-        def visit(node, prefix):
-            for ch in ast.iter_child_nodes(node):
-                if isinstance(ch, (ast.FunctionDef, ast.AsyncFunctionDef)):
-                    q = f"{mod}:{prefix}{ch.name}"
-                    known.add(q)
-                    sigs[q] = sorted(fingerprint(ch))
-                    lf = local_fingerprints(ch)
-                    if lf:
-                        locs[q] = lf
-                    visit(ch, prefix + ch.name + ".")
-                elif isinstance(ch, ast.ClassDef):
-                    visit(ch, prefix + ch.name + ".")
-                else:
-                    visit(ch, prefix)
-
-        visit(tree, "")
+        trees[mod] = ast.parse(open(full).read())
+        is_init[mod] = f == "__init__.py"
+pn = ProgramNormalizer(trees, is_init)
+pn.propagate_all()
+known, sigs, locs = set(), {}, {}
+for mod, tree in trees.items():
+    def visit(node, prefix):
+        for ch in ast.iter_child_nodes(node):
+            if isinstance(ch, (ast.FunctionDef, ast.AsyncFunctionDef)):
+                q = f"{mod}:{prefix}{ch.name}"
+                known.add(q)
+                sigs[q] = sorted(fingerprint(ch))
+                lf = local_fingerprints(ch)
+                if lf:
+                    locs[q] = lf
+                visit(ch, prefix + ch.name + ".")
+            elif isinstance(ch, ast.ClassDef):
+                visit(ch, prefix + ch.name + ".")
+            else:
+                visit(ch, prefix)
+    visit(tree, "")
 here = os.path.join(os.path.dirname(os.path.dirname(os.path.abspath(__file__))), "sa")
 json.dump(sorted(known), open(os.path.join(here, "known_funcs.json"), "w"), indent=0)
 json.dump(sigs, open(os.path.join(here, "known_sigs.json"), "w"), indent=0, sort_keys=True)
